@@ -24,6 +24,11 @@ def repo_root():
 
 def _link(tree, modname):
     tree._mod = modname
+    # `NAME: annotation = value` at module level binds NAME exactly as `NAME = value` does (the annotation is not a value of the program)
+    for i, st in enumerate(tree.body):
+        if isinstance(st, ast.AnnAssign) and st.value is not None and isinstance(st.target, ast.Name):
+            tree.body[i] = ast.copy_location(ast.Assign(targets=[st.target], value=st.value, type_comment=None), st)
+            tree.body[i].end_lineno, tree.body[i].end_col_offset = st.end_lineno, st.end_col_offset
     for node in ast.walk(tree):
         for child in ast.iter_child_nodes(node):
             child._parent = node
